@@ -10,12 +10,16 @@ PROPS = {
             {"engine": "reply", "args": ["-mode", "seq"], "n_quick": 1200, "n_thorough": 60000, "netns": True},
             {"engine": "reply", "args": ["-mode", "conc"], "n_quick": 1500, "n_thorough": 150000, "netns": True},
             {"engine": "reply", "args": ["-mode", "tcpstorm"], "n_quick": 25, "n_thorough": 1500, "netns": True},
+            {"engine": "resolver", "args": ["-mode", "e2e"], "n_quick": 900, "n_thorough": 60000, "netns": True},
         ],
         "trivial_tags": [r"/small"],
         "rule": "random well-formed/damaged queries x upstream outcomes (up/err/empty/err-with-bytes/hang) x UDP/TCP, one at a time "
                 "(seq), plus batches of concurrent UDP clients and pipelined TCP clients whose handlers rendezvous in the upstream and "
                 "are released together (conc); every reply compared byte-for-byte with the extracted `serve`; the extracted c01_ok "
-                "spec is evaluated on the implementation's own reply. distinct = distinct (proto, query, outcome, upstream message); "
+                "spec is evaluated on the implementation's own reply. e2e: the real proxy in front of the real resolver (DoH over TLS to a local "
+                "server whose answer is a function of the question bytes, response cache on), batches of concurrent UDP clients and pipelined "
+                "TCP clients over a small pool of names in random letter case: each reply must be that function of its own question. "
+                "distinct = distinct (proto, query, outcome, upstream message); "
                 "non-trivial = query longer than 14 bytes",
         "assumptions": ["upstream echoes ID and question (the proxy relays without checking)",
                         "advertised EDNS size <= 65507 (the property's quantifier); larger sizes are still compared with the model",
